@@ -180,8 +180,8 @@ theorem applyPortUpdate_id (fix : Fix) (p : MPort) (msg : PortMsg) : (applyPortU
   simp only
   split <;> rfl
 
-theorem applyPortUpdate_kept (vb : Bool) (p : MPort) (msg : PortMsg) :
-    Kept p (applyPortUpdate ⟨vb, true⟩ p msg).1 := by
+theorem applyPortUpdate_kept (vb kv : Bool) (p : MPort) (msg : PortMsg) :
+    Kept p (applyPortUpdate ⟨vb, true, kv⟩ p msg).1 := by
   unfold applyPortUpdate
   simp only [if_true, Bool.true_and]
   refine ⟨?_, ?_, ?_, ?_, ?_⟩
@@ -290,9 +290,9 @@ theorem stepEvent_deviceUpdate_p (fix : Fix) (m : Master) (a : Attrs) :
 
 /-- Ports part: one event (handled by the repaired `_handle_port_update`) keeps the pending edits of every port
 that is not removed by it. -/
-theorem stepEvent_port_kept (vb : Bool) (m : Master) (e : Ev) (id : Nat) (p : MPort)
+theorem stepEvent_port_kept (vb kv : Bool) (m : Master) (e : Ev) (id : Nat) (p : MPort)
     (hp : findPort m.ports id = some p) (hne : e ≠ .portRemove id) :
-    ∃ p', findPort (stepEvent ⟨vb, true⟩ m e).ports id = some p' ∧ Kept p p' := by
+    ∃ p', findPort (stepEvent ⟨vb, true, kv⟩ m e).ports id = some p' ∧ Kept p p' := by
   cases e with
   | valueChange i v =>
     rw [stepEvent_valueChange_p]
@@ -331,7 +331,7 @@ theorem stepEvent_port_kept (vb : Bool) (m : Master) (e : Ev) (id : Nat) (p : MP
       simp only [Option.map_some]
       by_cases h3 : p.id == msg.id
       · simp only [h3, if_true]
-        exact ⟨_, rfl, applyPortUpdate_kept vb p msg⟩
+        exact ⟨_, rfl, applyPortUpdate_kept vb kv p msg⟩
       · simp only [h3, Bool.false_eq_true, if_false]
         exact ⟨p, rfl, Kept.refl p⟩
   | portAdd msg =>
@@ -402,7 +402,7 @@ theorem stepEvent_dev_kept (fix : Fix) (m : Master) (e : Ev)
 
 /-! ### The hub's ticks keep the pending edits (the remote queue is empty while a value is pending) -/
 
-theorem drainPort_id (n : Nat) (p : MPort) : (drainPort n p).2.id = p.id := by
+theorem drainPort_id (fix : Fix) (n : Nat) (p : MPort) : (drainPort fix n p).2.id = p.id := by
   induction n generalizing p with
   | zero => rfl
   | succ k ih =>
@@ -416,16 +416,16 @@ theorem drainPort_id (n : Nat) (p : MPort) : (drainPort n p).2.id = p.id := by
       · rfl
       · split <;> rfl
 
-theorem drainPort_nil (n : Nat) (p : MPort) (h : p.rq = []) : (drainPort n p).2 = p := by
+theorem drainPort_nil (fix : Fix) (n : Nat) (p : MPort) (h : p.rq = []) : (drainPort fix n p).2 = p := by
   cases n with
   | zero => rfl
   | succ k =>
     unfold drainPort
     simp [h]
 
-theorem drainPort_static (n : Nat) (p : MPort) :
-    (drainPort n p).2.prov = p.prov ∧ (drainPort n p).2.provValue = p.provValue ∧
-    (drainPort n p).2.attrs = p.attrs := by
+theorem drainPort_static (fix : Fix) (n : Nat) (p : MPort) :
+    (drainPort fix n p).2.prov = p.prov ∧ (drainPort fix n p).2.provValue = p.provValue ∧
+    (drainPort fix n p).2.attrs = p.attrs := by
   induction n generalizing p with
   | zero => exact ⟨rfl, rfl, rfl⟩
   | succ k ih =>
@@ -433,38 +433,38 @@ theorem drainPort_static (n : Nat) (p : MPort) :
     split
     · exact ⟨rfl, rfl, rfl⟩
     · simp only
-      have := ih (tickPort p).2
-      have ht : (tickPort p).2.prov = p.prov ∧ (tickPort p).2.provValue = p.provValue ∧
-          (tickPort p).2.attrs = p.attrs := by
+      have := ih (tickPort fix p).2
+      have ht : (tickPort fix p).2.prov = p.prov ∧ (tickPort fix p).2.provValue = p.provValue ∧
+          (tickPort fix p).2.attrs = p.attrs := by
         unfold tickPort
         split
         · exact ⟨rfl, rfl, rfl⟩
         · split <;> exact ⟨rfl, rfl, rfl⟩
       exact ⟨this.1.trans ht.1, this.2.1.trans ht.2.1, this.2.2.trans ht.2.2⟩
 
-theorem drainPort_kept (n : Nat) (p : MPort) : Kept p (drainPort n p).2 := by
-  obtain ⟨h1, h2, h3⟩ := drainPort_static n p
+theorem drainPort_kept (fix : Fix) (n : Nat) (p : MPort) : Kept p (drainPort fix n p).2 := by
+  obtain ⟨h1, h2, h3⟩ := drainPort_static fix n p
   refine ⟨h1, h2, ?_, ?_, ?_⟩
-  · intro _ hr; rw [drainPort_nil _ _ hr]
+  · intro _ hr; rw [drainPort_nil fix _ _ hr]
   · intro k _ v hv; rw [h3]; exact hv
-  · intro _ hr; rw [drainPort_nil _ _ hr]; exact hr
+  · intro _ hr; rw [drainPort_nil fix _ _ hr]; exact hr
 
-theorem drain_port_kept (m : Master) (id : Nat) (p : MPort) (hp : findPort m.ports id = some p) :
-    ∃ p', findPort (drain m).2.ports id = some p' ∧ Kept p p' := by
+theorem drain_port_kept (fix : Fix) (m : Master) (id : Nat) (p : MPort) (hp : findPort m.ports id = some p) :
+    ∃ p', findPort (drain fix m).2.ports id = some p' ∧ Kept p p' := by
   unfold drain
   simp only [List.map_map]
-  have : findPort (m.ports.map ((fun x => x.2) ∘ fun p => drainPort p.rq.length p)) id
-      = (findPort m.ports id).map (fun p => (drainPort p.rq.length p).2) := by
+  have : findPort (m.ports.map ((fun x => x.2) ∘ fun p => drainPort fix p.rq.length p)) id
+      = (findPort m.ports id).map (fun p => (drainPort fix p.rq.length p).2) := by
     unfold findPort
     rw [List.find?_map]
-    have : ((fun p => p.id == id) ∘ (fun x => x.2) ∘ fun p => drainPort p.rq.length p)
+    have : ((fun p => p.id == id) ∘ (fun x => x.2) ∘ fun p => drainPort fix p.rq.length p)
         = (fun p : MPort => p.id == id) := by
       funext q
       simp only [Function.comp, drainPort_id]
     rw [this]
     rfl
   rw [this, hp]
-  exact ⟨_, rfl, drainPort_kept _ p⟩
+  exact ⟨_, rfl, drainPort_kept fix _ p⟩
 
 /-- What reaches the master between an offline edit and the reconnect: events reported by the slave (handled by
 the listen loop before `apply_provisioning`) and ticks of the hub's polling loop. -/
@@ -475,28 +475,185 @@ inductive Inc
 
 def stepInc (fix : Fix) (m : Master) : Inc → Master
   | .ev e => stepEvent fix m e
-  | .tick => (drain m).2
+  | .tick => (drain fix m).2
 
 def runInc (fix : Fix) (m : Master) (l : List Inc) : Master := l.foldl (stepInc fix) m
 
-theorem runInc_port_kept (vb : Bool) (id : Nat) (incs : List Inc) :
+theorem runInc_port_kept (vb kv : Bool) (id : Nat) (incs : List Inc) :
     ∀ (m : Master) (p : MPort), findPort m.ports id = some p → Inc.ev (.portRemove id) ∉ incs →
-      ∃ p', findPort (runInc ⟨vb, true⟩ m incs).ports id = some p' ∧ Kept p p' := by
+      ∃ p', findPort (runInc ⟨vb, true, kv⟩ m incs).ports id = some p' ∧ Kept p p' := by
   induction incs with
   | nil => intro m p hp _; exact ⟨p, hp, Kept.refl p⟩
   | cons x r ih =>
     intro m p hp hnr
     have hx : x ≠ Inc.ev (.portRemove id) := fun h => hnr (h ▸ List.mem_cons_self ..)
     have hr : Inc.ev (.portRemove id) ∉ r := fun h => hnr (List.mem_cons_of_mem _ h)
-    have step : ∃ p1, findPort (stepInc ⟨vb, true⟩ m x).ports id = some p1 ∧ Kept p p1 := by
+    have step : ∃ p1, findPort (stepInc ⟨vb, true, kv⟩ m x).ports id = some p1 ∧ Kept p p1 := by
       cases x with
-      | ev e => exact stepEvent_port_kept vb m e id p hp (fun h => hx (by rw [h]))
-      | tick => exact drain_port_kept m id p hp
+      | ev e => exact stepEvent_port_kept vb kv m e id p hp (fun h => hx (by rw [h]))
+      | tick => exact drain_port_kept _ m id p hp
     obtain ⟨p1, hp1, k1⟩ := step
     obtain ⟨p', hp', k2⟩ := ih _ p1 hp1 hr
     exact ⟨p', hp', k1.trans k2⟩
 
-theorem drain_dev (m : Master) : (drain m).2.dev = m.dev ∧ (drain m).2.devProv = m.devProv := ⟨rfl, rfl⟩
+/-! ### The pending VALUE under the repaired `read_value` (`keepPendingValue`): kept whatever is queued
+
+As found, a tick replaces `_cached_value` by the popped value, so a pending value survives only if the remote queue
+is empty (`Kept`, third and fifth clause). Repaired, a tick leaves `_cached_value` alone while a value is pending;
+no event handler touches `_cached_value` or the `value` entry of `_provisioning`. -/
+
+/-- The `value` entry of `_provisioning` is the same and, when set, so is `_cached_value`. -/
+def KeptV (p p' : MPort) : Prop := p'.provValue = p.provValue ∧ (p.provValue = true → p'.cached = p.cached)
+
+theorem KeptV.refl (p : MPort) : KeptV p p := ⟨rfl, fun _ => rfl⟩
+
+theorem KeptV.trans {a b c : MPort} (h1 : KeptV a b) (h2 : KeptV b c) : KeptV a c :=
+  ⟨h2.1.trans h1.1, fun h => (h2.2 (h1.1.trans h)).trans (h1.2 h)⟩
+
+theorem KeptV.pendValue {p p' : MPort} (k : KeptV p p') {u : Int} (hv : p.pendValue = some u) :
+    p'.pendValue = some u := by
+  unfold MPort.pendValue at *
+  cases hpv : p.provValue with
+  | false => rw [hpv] at hv; cases hv
+  | true =>
+    rw [hpv] at hv
+    rw [k.1, hpv, k.2 hpv]; exact hv
+
+theorem applyPortUpdate_keptV (fix : Fix) (p : MPort) (msg : PortMsg) : KeptV p (applyPortUpdate fix p msg).1 := by
+  unfold applyPortUpdate
+  simp only
+  constructor
+  · split <;> rfl
+  · intro _; split <;> rfl
+
+theorem tickPort_keptV (fix : Fix) (hk : fix.keepPendingValue = true) (p : MPort) : KeptV p (tickPort fix p).2 := by
+  unfold tickPort
+  split
+  · exact KeptV.refl p
+  · split
+    · exact KeptV.refl p
+    · refine ⟨rfl, ?_⟩
+      intro hpv
+      simp only [hk, hpv, Bool.and_self, if_true]
+
+theorem drainPort_keptV (fix : Fix) (hk : fix.keepPendingValue = true) (n : Nat) (p : MPort) :
+    KeptV p (drainPort fix n p).2 := by
+  induction n generalizing p with
+  | zero => exact KeptV.refl p
+  | succ k ih =>
+    unfold drainPort
+    split
+    · exact KeptV.refl p
+    · exact (tickPort_keptV fix hk p).trans (ih _)
+
+theorem drain_port_keptV (fix : Fix) (hk : fix.keepPendingValue = true) (m : Master) (id : Nat) (p : MPort)
+    (hp : findPort m.ports id = some p) : ∃ p', findPort (drain fix m).2.ports id = some p' ∧ KeptV p p' := by
+  obtain ⟨p', hp', _⟩ := drain_port_kept fix m id p hp
+  refine ⟨p', hp', ?_⟩
+  have : findPort (drain fix m).2.ports id = some (drainPort fix p.rq.length p).2 := by
+    unfold drain
+    simp only [List.map_map]
+    unfold findPort
+    rw [List.find?_map]
+    have : ((fun p => p.id == id) ∘ (fun x => x.2) ∘ fun p => drainPort fix p.rq.length p)
+        = (fun p : MPort => p.id == id) := by
+      funext q
+      simp only [Function.comp, drainPort_id]
+    rw [this]
+    show Option.map _ (findPort m.ports id) = _
+    rw [hp]; rfl
+  rw [this] at hp'
+  cases hp'
+  exact drainPort_keptV fix hk _ p
+
+/-- No event handler touches `_cached_value` or the `value` entry of `_provisioning` (whatever `fix`). -/
+theorem stepEvent_port_keptV (fix : Fix) (m : Master) (e : Ev) (id : Nat) (p : MPort)
+    (hp : findPort m.ports id = some p) (hne : e ≠ .portRemove id) :
+    ∃ p', findPort (stepEvent fix m e).ports id = some p' ∧ KeptV p p' := by
+  cases e with
+  | valueChange i v =>
+    rw [stepEvent_valueChange_p]
+    cases hf : findPort m.ports i with
+    | none => exact ⟨p, hp, KeptV.refl p⟩
+    | some q =>
+      simp only
+      by_cases h1 : q.pendValue.isSome
+      · simp only [h1, if_true]; exact ⟨p, hp, KeptV.refl p⟩
+      · simp only [h1, Bool.false_eq_true, if_false]
+        by_cases h2 : q.lastRemote == v
+        · simp only [h2, if_true]; exact ⟨p, hp, KeptV.refl p⟩
+        · simp only [h2, Bool.false_eq_true, if_false]
+          rw [findPort_updPort_p _ _ _ _ (fun q => push_id q v), hp]
+          simp only [Option.map_some]
+          by_cases h3 : p.id == i
+          · simp only [h3, if_true]
+            exact ⟨_, rfl, rfl, fun _ => rfl⟩
+          · simp only [h3, Bool.false_eq_true, if_false]
+            exact ⟨p, rfl, KeptV.refl p⟩
+  | portUpdate msg =>
+    rw [stepEvent_portUpdate_p]
+    cases hf : findPort m.ports msg.id with
+    | none => exact ⟨p, hp, KeptV.refl p⟩
+    | some q =>
+      simp only
+      rw [findPort_updPort_p _ _ _ _ (fun q => applyPortUpdate_id _ q msg), hp]
+      simp only [Option.map_some]
+      by_cases h3 : p.id == msg.id
+      · simp only [h3, if_true]
+        exact ⟨_, rfl, applyPortUpdate_keptV fix p msg⟩
+      · simp only [h3, Bool.false_eq_true, if_false]
+        exact ⟨p, rfl, KeptV.refl p⟩
+  | portAdd msg =>
+    rw [stepEvent_portAdd_p]
+    cases hf : findPort m.ports msg.id with
+    | some q => exact ⟨p, hp, KeptV.refl p⟩
+    | none =>
+      simp only
+      have hne' : (mkPort msg).id ≠ id := by
+        intro h
+        have : msg.id = id := h
+        rw [this, hp] at hf
+        cases hf
+      rw [findPort_append_ne _ _ _ hne']
+      exact ⟨p, hp, KeptV.refl p⟩
+  | portRemove i =>
+    rw [stepEvent_portRemove_p]
+    cases hf : findPort m.ports i with
+    | none => exact ⟨p, hp, KeptV.refl p⟩
+    | some q =>
+      simp only
+      have : id ≠ i := by
+        intro h
+        apply hne
+        rw [h]
+      rw [findPort_erasePort_ne _ _ _ this]
+      exact ⟨p, hp, KeptV.refl p⟩
+  | deviceUpdate a =>
+    rw [stepEvent_deviceUpdate_p]
+    split
+    · exact ⟨p, hp, KeptV.refl p⟩
+    · exact ⟨p, hp, KeptV.refl p⟩
+
+/-- **Repaired `read_value`:** along every `Inc` history (events and ticks) the pending value of a port that is not
+removed is kept, whatever is queued on it. -/
+theorem runInc_port_keptV (fix : Fix) (hk : fix.keepPendingValue = true) (id : Nat) (incs : List Inc) :
+    ∀ (m : Master) (p : MPort), findPort m.ports id = some p → Inc.ev (.portRemove id) ∉ incs →
+      ∃ p', findPort (runInc fix m incs).ports id = some p' ∧ KeptV p p' := by
+  induction incs with
+  | nil => intro m p hp _; exact ⟨p, hp, KeptV.refl p⟩
+  | cons x r ih =>
+    intro m p hp hnr
+    have hx : x ≠ Inc.ev (.portRemove id) := fun h => hnr (h ▸ List.mem_cons_self ..)
+    have hr : Inc.ev (.portRemove id) ∉ r := fun h => hnr (List.mem_cons_of_mem _ h)
+    have step : ∃ p1, findPort (stepInc fix m x).ports id = some p1 ∧ KeptV p p1 := by
+      cases x with
+      | ev e => exact stepEvent_port_keptV fix m e id p hp (fun h => hx (by rw [h]))
+      | tick => exact drain_port_keptV fix hk m id p hp
+    obtain ⟨p1, hp1, k1⟩ := step
+    obtain ⟨p', hp', k2⟩ := ih _ p1 hp1 hr
+    exact ⟨p', hp', k1.trans k2⟩
+
+theorem drain_dev (fix : Fix) (m : Master) : (drain fix m).2.dev = m.dev ∧ (drain fix m).2.devProv = m.devProv := ⟨rfl, rfl⟩
 
 theorem DevKept.trans {a b c : Master} (h1 : DevKept a b) (h2 : DevKept b c) : DevKept a c := by
   refine ⟨by rw [h2.1, h1.1], ?_⟩
